@@ -32,9 +32,11 @@ META = {
             'driver modules, proxy node) are validated by TLC against Trace_ClientCache. Bounded (depth, 2-3 '
             'modules, value/error catalogues), exhaustive inside the bound.',
     'note': 'Trusted: TLC; the alpha/gamma tables in harness/props/c12.py (abstract value ids <-> JSON / python '
-            'values, fake connection, patched clock of frappy.client); the end-to-end part runs in wall-clock time '
-            'with TCP_NODELAY set on the listening socket and judges value equality only. Not covered: '
-            'nodeStateChange / descriptiveDataChange / unhandledMessage callbacks, concurrency of the tx/rx threads (C11).',
+            'values, scripted connection, patched clock of frappy.client). The depth-bounded design check runs with one TLC '
+            'worker (TLCGet("level") is only exact then). The end-to-end part runs in wall-clock time over loopback TCP '
+            '(TCP_NODELAY set on the listening socket), repeats a request that ran into a time-out / lost connection up to '
+            '3 times and judges value equality only. Not covered: nodeStateChange / descriptiveDataChange / '
+            'unhandledMessage callbacks, ordering of callbacks inside one message, concurrency of the tx/rx threads (C11).',
     'tech': 'TLA+ spec (ClientCache.tla) + TLC model checking; spec->code replay of TLC behaviours (exhaustive + '
             'simulated); code->spec TLC trace validation incl. end-to-end law',
     'ref': 'DESIGN.md section 5 C12',
